@@ -17,6 +17,7 @@ import (
 	"strings"
 
 	"com.tuntun.rangers/node/src/common"
+	crypto "com.tuntun.rangers/node/src/eth_crypto"
 	"com.tuntun.rangers/node/src/storage/account"
 	"com.tuntun.rangers/node/src/storage/rlp"
 	"com.tuntun.rangers/node/src/storage/trie"
@@ -197,17 +198,55 @@ type twinResult struct {
 	diffs              []leafDiff
 	dumpErr            string
 	twinPanic          string
+	commitErr          string   // Commit of the original fails, Commit of the twin succeeds
+	bothCommitErr      string   // both fail: not attributable to the reverted region
+	codeMissing        []string // accounts whose committed code hash has no (matching) blob in the original but has in the twin
 }
 
-func (t *twinResult) mismatch() bool { return t.twinPanic != "" || t.irO != t.irT || t.crO != t.crT }
+func (t *twinResult) mismatch() bool {
+	if t.bothCommitErr != "" {
+		return false
+	}
+	return t.twinPanic != "" || t.commitErr != "" || t.irO != t.irT || t.crO != t.crT
+}
 
 func finish(rn *runner, fm finalMode) (ir, cr common.Hash) {
+	ir, cr, err := finishErr(rn, fm)
+	if err != nil {
+		panic(fmt.Sprintf("harness: final commit: %v", err))
+	}
+	return
+}
+
+func finishErr(rn *runner, fm finalMode) (ir, cr common.Hash, err error) {
 	if fm.IR {
 		ir = rn.adb.IntermediateRoot(fm.D)
 	}
-	cr, err := rn.adb.Commit(fm.D)
+	cr, err = rn.adb.Commit(fm.D)
+	return
+}
+
+// codeOf reopens the committed root on the execution's own database and returns, per
+// observed account with a non-empty code hash, whether the blob is there and hashes to it.
+func codeOf(rn *runner, root common.Hash) (missing []string, codes map[string]string, err error) {
+	adb, err := account.NewAccountDB(root, rn.db)
 	if err != nil {
-		panic(fmt.Sprintf("harness: final commit: %v", err))
+		return nil, nil, err
+	}
+	codes = map[string]string{}
+	for i, a := range obsAddr {
+		if !adb.Exist(a) {
+			continue
+		}
+		h := adb.GetCodeHash(a)
+		if h == (common.Hash{}) || h == common.Hash(emptyCodeHash) {
+			continue
+		}
+		code := adb.GetCode(a)
+		codes[obsName[i]] = hx(code)
+		if len(code) == 0 || crypto.Keccak256Hash(code) != h || adb.GetCodeSize(a) != len(code) {
+			missing = append(missing, obsName[i])
+		}
 	}
 	return
 }
@@ -252,8 +291,10 @@ func twinCheck(d account.AccountDatabase, h, th []Op, fm finalMode) *twinResult 
 	o := newRunner(d)
 	o.run(h)
 	res := &twinResult{}
-	res.irO, res.crO = finish(o, fm)
-	t := newRunner(d)
+	var errO error
+	res.irO, res.crO, errO = finishErr(o, fm)
+	t := newRunner(d) // own database: nothing the original committed is visible to the twin and vice versa
+	var errT error
 	func() { // the twin may run into one of the unrelated panics only because the states already diverged
 		defer func() {
 			if e := recover(); e != nil {
@@ -261,18 +302,49 @@ func twinCheck(d account.AccountDatabase, h, th []Op, fm finalMode) *twinResult 
 			}
 		}()
 		t.run(th)
-		res.irT, res.crT = finish(t, fm)
+		res.irT, res.crT, errT = finishErr(t, fm)
 	}()
 	if res.twinPanic != "" {
 		return res
 	}
+	// clause "Commit succeeds": judged against the twin, which never executed the region
+	if errO != nil || errT != nil {
+		if errO != nil && errT == nil {
+			res.commitErr = errO.Error()
+		} else {
+			res.bothCommitErr = fmt.Sprint(errO, " / ", errT)
+		}
+		return res
+	}
 	if res.crO != res.crT {
-		so, e1 := dumpState(d, res.crO)
-		st, e2 := dumpState(d, res.crT)
+		so, e1 := dumpState(o.db, res.crO)
+		st, e2 := dumpState(t.db, res.crT)
 		if e1 != nil || e2 != nil {
 			res.dumpErr = fmt.Sprint(e1, e2)
 		} else {
 			res.diffs = diffStates(so, st)
+		}
+	}
+	// clause "the state reopened from the committed root has the code": every code hash in
+	// the original's committed state must come with its blob, as it does in the twin's
+	missO, codesO, e1 := codeOf(o, res.crO)
+	missT, codesT, e2 := codeOf(t, res.crT)
+	if e1 == nil && e2 == nil {
+		inT := map[string]bool{}
+		for _, n := range missT {
+			inT[n] = true
+		}
+		for _, n := range missO {
+			if !inT[n] {
+				res.codeMissing = append(res.codeMissing, n)
+			}
+		}
+		if len(res.codeMissing) == 0 && res.crO == res.crT {
+			for n, c := range codesT {
+				if codesO[n] != c {
+					res.codeMissing = append(res.codeMissing, n)
+				}
+			}
 		}
 	}
 	return res
@@ -485,7 +557,7 @@ func classify(d account.AccountDatabase, h []Op, x common.Address, global bool, 
 		}
 		var lf *leaf
 		if P.reopened {
-			lf = lookupLeaf(d, P.lastReopen, x)
+			lf = lookupLeaf(P.db, P.lastReopen, x)
 		}
 		// "empty-looking" is what the real Empty() answers at the point just before the
 		// first reverted operation (it depends on the storage cache in this code base)
@@ -604,7 +676,7 @@ func describe(h []Op) []string {
 			case "SetNonce":
 				s += fmt.Sprintf(",%d", nonces[o.V%len(nonces)])
 			case "SetCode":
-				s += fmt.Sprintf(",code%d", o.V%len(codes))
+				s += fmt.Sprintf(",code%d", o.V)
 			case "AddBalance", "SubBalance", "SetBalance", "Transfer", "SubFT", "SetFT", "CanTransfer":
 				s += "," + amts[o.V%len(amts)].String()
 			case "AddFT":
